@@ -46,9 +46,9 @@ type appCase struct {
 	LogDir     string `json:"log_dir"`
 	StartMs    int64  `json:"start_unix_ms"`
 	// process level
-	Process    bool   `json:"process,omitempty"`
-	StdinMode  string `json:"stdin_mode,omitempty"`  // file | pipe
-	StdoutMode string `json:"stdout_mode,omitempty"` // fast | slow
+	Process     bool   `json:"process,omitempty"`
+	StdinMode   string `json:"stdin_mode,omitempty"`  // file | pipe
+	StdoutMode  string `json:"stdout_mode,omitempty"` // fast | slow
 	HookProfile string `json:"hook_profile,omitempty"`
 }
 
@@ -130,7 +130,9 @@ func runAppProcess(c *child.Ctx, bin string, args []string, stdin []byte, k appC
 	os.MkdirAll(dir, 0755)
 	cmd := exec.Command(bin, args...)
 	cmd.Dir = dir
-	cmd.Env = append(os.Environ(), "GORACE=halt_on_error=1 exitcode=66", "GOTRACEBACK=all")
+	// atexit_sleep_ms=0: by default a race-detector build sleeps one second at exit,
+	// which would hide exactly the exit races the process-level checks look for
+	cmd.Env = append(os.Environ(), "GORACE=halt_on_error=1 exitcode=66 atexit_sleep_ms=0", "GOTRACEBACK=all")
 	if k.Procs > 0 {
 		cmd.Env = append(cmd.Env, fmt.Sprintf("GOMAXPROCS=%d", k.Procs))
 	}
